@@ -102,22 +102,22 @@ def setup(c):
     return model, [sc for sc, ok in zip(scs, oks) if ok]
 
 
-# floats: classes of bit patterns. The random stream keeps to the guard of `json_roundtrip_partial`
-# (no -0.0, NaN only with the payload Go's "NaN" parses to); the excluded patterns are exercised by the fixed
-# witness lines (known findings L2/L3) and by dedicated lines for the positions where they are harmless.
-F32 = [0, 0x3F800000, 0xBF800000, 0x7FC00000, 0x7F800000, 0xFF800000, 0x40490FDB, 0x3F000000, 0x41200000, 0x3DCCCCCD,
+# floats: classes of bit patterns. The random stream keeps to the guard of the remaining float finding L3 (NaN only with the payload
+# Go's "NaN" parses to); -0.0 may appear anywhere since the repair of L2 (a float is empty iff its bit pattern is zero). NaN payloads are
+# exercised by the fixed witness lines.
+F32 = [0, 0x80000000, 0x80000000, 0x3F800000, 0xBF800000, 0x7FC00000, 0x7F800000, 0xFF800000, 0x40490FDB, 0x3F000000, 0x41200000, 0x3DCCCCCD,
        1, 0x007FFFFF, 0x00800000, 0x7F7FFFFF, 0x4B800000, 0x4B7FFFFF, 0x3EAAAAAB, 0x501502F9, 0x5E000000, 0xC2F6E979]
-F64 = [0, 0x3FF0000000000000, 0xBFF0000000000000, 0x7FF8000000000001, 0x7FF0000000000000, 0xFFF0000000000000,
+F64 = [0, 1 << 63, 1 << 63, 0x3FF0000000000000, 0xBFF0000000000000, 0x7FF8000000000001, 0x7FF0000000000000, 0xFFF0000000000000,
        0x400921FB54442D18, 0x3FE0000000000000, 0x3FB999999999999A, 1, 0x000FFFFFFFFFFFFF, 0x0010000000000000,
        0x7FEFFFFFFFFFFFFF, 0x4340000000000000, 0x433FFFFFFFFFFFFF, 0x3FD5555555555555, 0x44B52D02C7E14AF6, 0xC05EDD2F1A9FBE77]
 
 
 def f32_ok(n):
-    return n != 0x80000000 and not ((n >> 23) & 0xFF == 0xFF and n & 0x7FFFFF != 0 and n != 0x7FC00000)
+    return not ((n >> 23) & 0xFF == 0xFF and n & 0x7FFFFF != 0 and n != 0x7FC00000)
 
 
 def f64_ok(n):
-    return n != 1 << 63 and not ((n >> 52) & 0x7FF == 0x7FF and n & ((1 << 52) - 1) != 0 and n != 0x7FF8000000000001)
+    return not ((n >> 52) & 0x7FF == 0x7FF and n & ((1 << 52) - 1) != 0 and n != 0x7FF8000000000001)
 
 
 UTF8_SAMPLES = [b"", b"a", b"abc", b"hello world", "é".encode(), "日本".encode(), "\U0001F600".encode(), b"\"q\\", b"\n\t\r", b"\x00\x1f",
@@ -998,23 +998,23 @@ def fixed_values(sc):
                 ("cases.testDictString", {"dict": [{"key": b"a\nb", "value": 1}]}, "ok", "dictionary key that JSON escapes (F2, repaired in 540af2db)"),
                 ("cases.testDictString", {"dict": [{"key": b"q\"", "value": 1}]}, "ok", "dictionary key that JSON escapes (F2, repaired in 540af2db)"),
                 ("cases.testDictString", {"dict": [{"key": " ".encode(), "value": 1}]}, "ok", "dictionary key that JSON escapes (F2, repaired in 540af2db)"),
-                ("cases.testDictAny", {"dict": [{"key": NEG0_64, "value": 1}]}, "L2", "-0.0 in an unmasked float64 field"),
+                ("cases.testDictAny", {"dict": [{"key": NEG0_64, "value": 1}]}, "ok", "-0.0 in an unmasked float64 field (L2, repaired)"),
                 ("cases.testDictAny", {"dict": [{"key": NAN64_P, "value": 1}]}, "L3", "NaN with a payload"),
                 ("cases.testDictAny", {"dict": [{"key": 0x7FF8000000000001, "value": 1}, {"key": 0xFFF0000000000000, "value": 2}]}, "ok", "NaN/-Inf")]
     if inst_by_name(sc, "jx.prims"):
         P = lambda **kw: dict({"a": 0, "b": 0, "c": 0, "d": 0, "e": b"", "f": False, "g": 0}, **kw)
-        out += [("jx.prims", P(c=NEG0_32), "L2", "-0.0 in an unmasked float32 field"),
-                ("jx.prims", P(d=NEG0_64), "L2", "-0.0 in an unmasked float64 field"),
+        out += [("jx.prims", P(c=NEG0_32), "ok", "-0.0 in an unmasked float32 field (L2, repaired)"),
+                ("jx.prims", P(d=NEG0_64), "ok", "-0.0 in an unmasked float64 field (L2, repaired)"),
                 ("jx.prims", P(c=NAN32_P), "L3", "float32 NaN with a payload"),
                 ("jx.prims", P(d=NAN64_P), "L3", "float64 NaN with a payload"),
                 ("jx.prims", P(c=0xFFC00000), "L3", "float32 NaN with the sign bit"),
                 ("jx.prims", P(c=0x7FC00000, d=0x7FF8000000000001, e=b"\xff\xfe"), "ok", "canonical NaNs, non-UTF-8 string"),
                 ("jx.masked", {"m": 0b1100, "c": NEG0_32, "d": NEG0_64}, "ok", "-0.0 in masked fields is written explicitly"),
                 ("jx.masked", {"m": 0b100001100, "c": 1, "d": 1, "v": [NEG0_32, 0, NEG0_32]}, "ok", "-0.0 as vector element"),
-                ("jx.masked", {"m": 1 << 9, "mb": NEG0_64}, "L2", "-0.0 inside Maybe is omitted"),
+                ("jx.masked", {"m": 1 << 9, "mb": NEG0_64}, "ok", "-0.0 inside Maybe (L2, repaired)"),
                 ("jx.vectors", {"a": [NEG0_32], "b": [NEG0_64, 0], "c": [b"\xff", b""], "d": [True, False], "e": [NEG0_32, 0, 1], "f": [b"", b"\x80"], "g": [[], [0]]}, "ok", "-0.0 / bad UTF-8 as elements"),
-                ("jx.unionBox", {"u": (0, NEG0_32), "us": [], "mu": None}, "L2", "-0.0 in a typedef union variant is omitted"),
-                ("jx.unionBox", {"u": (3, {"x": NEG0_32, "y": b""}), "us": [], "mu": None}, "L2", "-0.0 in a named union variant field"),
+                ("jx.unionBox", {"u": (0, NEG0_32), "us": [], "mu": None}, "ok", "-0.0 in a typedef union variant (L2, repaired)"),
+                ("jx.unionBox", {"u": (3, {"x": NEG0_32, "y": b""}), "us": [], "mu": None}, "ok", "-0.0 in a named union variant field (L2, repaired)"),
                 ("jx.dicts", {"a": [{"key": b"k", "value": NEG0_32}], "b": [], "c": [], "d": [], "e": [], "f": [], "g": []}, "ok", "-0.0 as dictionary value"),
                 ("jx.dicts", {"a": [], "b": [{"key": b"\xc3", "value": b"x"}], "c": [], "d": [], "e": [], "f": [], "g": []}, "F1", "dictionary key that is not valid UTF-8"),
                 ("jx.dicts", {"a": [], "b": [{"key": b"\\", "value": b"x"}], "c": [], "d": [], "e": [], "f": [], "g": []}, "ok", "dictionary key that JSON escapes (F2, repaired in 540af2db)"),
@@ -1053,7 +1053,7 @@ def known_answer_ok(cls, a, model_out):
     d = parse_out(a) if a.startswith("ok ") else {}
     if cls == "F1":
         return a == "ok j=!invalid valid=0 rt=rej"
-    if cls in ("L2", "L3"):   # the model follows the code here: identical answers, TL1 changes
+    if cls == "L3":   # the model follows the code here: identical answers, TL1 changes
         return a == model_out and d.get("valid") == "1" and d.get("rt") == "tl1"
     if cls == "F3":
         return a == "panic"
